@@ -9,6 +9,14 @@
  *          enc-key-mismatch  TLCP server: decryption key does not belong to the encryption certificate
  *          enc-cert-other-ca TLCP server: encryption certificate issued by a different CA than the signing one
  *          cert-other-sigalg leaf whose two signatureAlgorithm fields name an algorithm the library does not verify
+ *          anchors-oversize  the VERIFIER's CA bundle (6 certificates, real root included) exceeds the 2048-byte conn->ca_certs;
+ *                            the peer is anonymous (server verifies) / under an untrusted root (client verifies):
+ *                            tls_init must refuse, or authentication must still be enforced
+ *          anchors-many      control: 5 CA certificates (real root last), valid peer
+ *          oversize-cert-<bytes>-<pos>  the peer is a forger: certificate number <pos> of the chain it sends is a
+ *                            well-formed certificate of <bytes> bytes (large subjectAltName)
+ *          not-before-2^32   leaf valid from now + 2^32 s - 1 day (valid only in 32-bit arithmetic)
+ *          clock-2^32        the verifier's clock is 2^32 s ahead (everything expired 136 years ago)
  *          no-cert           client has no certificate although the server asks for one
  *          empty-cert        TLCP / TLS 1.2: the client's Certificate message carries an empty list (built by a
  *                            link-time interposer in the client thread, transcripts stay consistent);
@@ -48,6 +56,8 @@ static void handle(size_t nw, char **w) {
 		uint8_t *schain = NULL, *cchain = NULL; size_t schainlen = 0, cchainlen = 0;
 		const SM2_KEY *skey, *sekey, *ckey; const cred_t *sleaf, *cleaf, *sencleaf; time_t vclock = T0;
 		uint8_t repl[64]; size_t repllen = 0;
+		uint8_t *vanchors = NULL; size_t vanchorslen = 0; int anon_client = 0;
+		uint8_t *big = NULL; size_t biglen = 0; int bigpos = -1; static cred_t far_leaf_s, far_leaf_c;
 		int tlcp = protocol == TLS_protocol_tlcp;
 		if (!k || protocol < 0) { printf("ERR setup"); return; }
 		S = calloc(1, sizeof(*S));
@@ -64,9 +74,30 @@ static void handle(size_t nw, char **w) {
 		else if (!strcmp(df, "enc-key-mismatch")) { sekey = &k->csign.key; }
 		else if (!strcmp(df, "enc-cert-other-ca")) { sencleaf = &senc_b; sekey = &senc_b.key; }
 		else if (!strcmp(df, "bad-cert-sig") || !strcmp(df, "no-cert") || !strcmp(df, "empty-cert") || !strcmp(df, "cert-other-sigalg")) { }
+		else if (!strcmp(df, "anchors-oversize")) {
+			if (bundle_build(&vanchors, &vanchorslen, &k->root, 6, 5, 0) != 1 || vanchorslen <= TLS_MAX_CERTIFICATES_SIZE) { printf("ERR bundle"); free(S); return; }
+			if (verifier_is_client) { sleaf = &k->ssign2; skey = &k->ssign2.key; } else anon_client = 1;
+		}
+		else if (!strcmp(df, "anchors-many")) {
+			if (bundle_build(&vanchors, &vanchorslen, &k->root, 5, 4, 0) != 1 || vanchorslen > TLS_MAX_CERTIFICATES_SIZE) { printf("ERR bundle %zu", vanchorslen); free(S); return; }
+		}
+		else if (!strncmp(df, "oversize-cert-", 14)) {
+			size_t want = strtoul(df + 14, NULL, 10); const char *q = strchr(df + 14, '-');
+			bigpos = q ? atoi(q + 1) : 1;
+			ent_seed(0xB16000 + want, -1);
+			big = mk_big_cert(&k->ca[0], want, &biglen);
+			if (!big) { printf("ERR bigcert"); free(S); return; }
+		}
+		else if (!strcmp(df, "not-before-2^32")) {
+			time_t nb = T0 + ((time_t)1 << 32) - DAY; cred_t *fl = verifier_is_client ? &far_leaf_s : &far_leaf_c;
+			ent_seed(0xFA4000, -1);
+			if (mk_leaf(fl, &k->ca[0], verifier_is_client ? "localhost" : "client", X509_KU_DIGITAL_SIGNATURE, nb, nb + 365 * DAY) != 1) { printf("ERR farleaf"); free(S); return; }
+			if (verifier_is_client) { sleaf = fl; skey = &fl->key; } else { cleaf = fl; ckey = &fl->key; }
+		}
+		else if (!strcmp(df, "clock-2^32")) vclock = T0 + ((time_t)1 << 32);
 		else { printf("ERR bad-defect"); free(S); return; }
 
-		if (!strcmp(df, "untrusted-root")) {
+		if (!strcmp(df, "untrusted-root") || (!strcmp(df, "anchors-oversize") && verifier_is_client)) {
 			/* chain under the second hierarchy */
 			if (verifier_is_client) { chain_add(&schain, &schainlen, sleaf); if (tlcp) chain_add(&schain, &schainlen, sencleaf); chain_add(&schain, &schainlen, &k->ca2); chain_build(&cchain, &cchainlen, k, cleaf, NULL); }
 			else { chain_add(&cchain, &cchainlen, cleaf); chain_add(&cchain, &cchainlen, &k->ca2); chain_build(&schain, &schainlen, k, sleaf, tlcp ? sencleaf : NULL); }
@@ -92,12 +123,17 @@ static void handle(size_t nw, char **w) {
 			if (verifier_is_client) schain[sleaf->len - 5] ^= 0x10; else cchain[cleaf->len - 5] ^= 0x10;
 		}
 		{
-			int client_has_cert = !(!verifier_is_client && !strcmp(df, "no-cert"));
+			int client_has_cert = !(!verifier_is_client && (!strcmp(df, "no-cert") || anon_client));
 			int mutual = !verifier_is_client || force_mutual;      /* server verifies => client authentication on */
-			if (ep_setup(&S->s, protocol, 0, schain, schainlen, skey, tlcp ? sekey : NULL,
-					mutual ? k->root.der : NULL, mutual ? k->root.len : 0) != 1
-				|| ep_setup(&S->c, protocol, 1, (mutual && client_has_cert) ? cchain : NULL, (mutual && client_has_cert) ? cchainlen : 0,
-					(mutual && client_has_cert) ? ckey : NULL, NULL, k->root.der, k->root.len) != 1) { printf("ERR setup"); free(schain); free(cchain); free(S); return; }
+			const uint8_t *sanch = mutual ? k->root.der : NULL; size_t sanchlen = mutual ? k->root.len : 0;
+			const uint8_t *canch = k->root.der; size_t canchlen = k->root.len; int r1, r2;
+			if (vanchors) { if (verifier_is_client) { canch = vanchors; canchlen = vanchorslen; } else { sanch = vanchors; sanchlen = vanchorslen; } }
+			r1 = ep_setup(&S->s, protocol, 0, schain, schainlen, skey, tlcp ? sekey : NULL, sanch, sanchlen);
+			r2 = ep_setup(&S->c, protocol, 1, (mutual && client_has_cert) ? cchain : NULL, (mutual && client_has_cert) ? cchainlen : 0,
+					(mutual && client_has_cert) ? ckey : NULL, NULL, canch, canchlen);
+			if (r1 == -2 || r2 == -2) { printf("init=refused rc=-1 rs=-1 okc=0 oks=0 cfg=11"); free(schain); free(cchain); free(vanchors); free(big); free(S); return; }
+			if (r1 != 1 || r2 != 1) { printf("ERR setup"); free(schain); free(cchain); free(vanchors); free(big); free(S); return; }
+			if (big) { endpoint_t *forger = verifier_is_client ? &S->s : &S->c; forger->forge_pos = bigpos; forger->forge_cert = big; forger->forge_cert_len = biglen; }
 		}
 		S->c.seed = seed * 2 + 1; S->s.seed = seed * 2 + 2;
 		if (verifier_is_client) S->c.clock = vclock; else S->s.clock = vclock;
@@ -112,8 +148,9 @@ static void handle(size_t nw, char **w) {
 			}
 		}
 		session_run(S, 1500, 0);
+		printf("init=ok cfg=%d%d ", ep_anchors_intact(&S->c), ep_anchors_intact(&S->s));
 		printf("rc=%d rs=%d okc=%d oks=%d", S->c.hs_ret, S->s.hs_ret, S->c.post_accepted == 2 && !S->c.post_deviates, S->s.post_accepted == 2 && !S->s.post_deviates);
-		session_close(S); free(schain); free(cchain); free(S);
+		session_close(S); free(schain); free(cchain); free(vanchors); free(big); free(S);
 	}
 	else printf("ERR bad-op");
 }
